@@ -33,7 +33,7 @@ RULE = (
     "Non-trivial: >=2 jobs sharing a machine; solved: critical path crosses "
     ">=2 machines."
 )
-BUDGET = {"quick": 1500, "thorough": 4000}
+BUDGET = {"quick": 1500, "thorough": 15000}
 ASSUMPTIONS = [
     "same-job disjunctive edges are left unspecified (module docstring and property text differ)",
 ]
